@@ -70,6 +70,9 @@ def eval_guard(t, S, val, flags):
         return None if v is None else (not v)
     if isinstance(t, ast.Name) and t.id in flags:
         return bool(flags[t.id])
+    if isinstance(t, ast.Call):
+        from ..pattern import positional
+        t = positional(t)
     if isinstance(t, ast.Call) and t.args and isinstance(t.args[0], ast.Name) and t.args[0].id == S:
         fn = t.func.id if isinstance(t.func, ast.Name) else (t.func.attr if isinstance(t.func, ast.Attribute) else None)
         kind, k, cont = val
@@ -582,6 +585,8 @@ def eval_guard2(t, S, val, nones, flags, shape):
     if isinstance(t, ast.Name) and t.id in flags:
         return bool(flags[t.id])
     if isinstance(t, ast.Call):
+        from ..pattern import positional
+        t = positional(t)
         if isinstance(t.func, ast.Attribute) and t.func.attr == 'arghandler':
             return _arghandler_abs(shape, val) if (t.args and isinstance(t.args[0], ast.Name) and t.args[0].id == S) else None
         fn = t.func.id if isinstance(t.func, ast.Name) else (t.func.attr if isinstance(t.func, ast.Attribute) else None)
